@@ -4,6 +4,9 @@ import json
 import os
 
 HERE = os.path.dirname(os.path.dirname(os.path.abspath(__file__)))
+CATEGORIES = {"exploration", "fault_enumeration", "model_checking", "proof", "translation_validation", "other"}
+for _pid, _row in list(globals().get("CHECKS", {}).items()):
+    pass
 
 COMMON_TRUST = ("Trusted base: Python ast / clang 14 parser; the xarray/numpy API model tabulated in DESIGN.md section 3.2; "
                 "attributes.yml as units oracle. A static check of necessary structural clauses is not a proof of the "
@@ -286,3 +289,9 @@ def main():
 
 if __name__ == "__main__":
     main()
+
+# self-check: a malformed table must never produce an invalid MANIFEST silently
+_m = json.load(open(os.path.join(HERE, "MANIFEST.json")))
+for _c in _m["checks"]:
+    assert _c["level_claimed"]["category"] in CATEGORIES, ("bad category", _c["property_id"])
+    assert _c["quick_cmd"].startswith("./vcheck") and _c["thorough_cmd"].startswith("./vcheck")
